@@ -11,7 +11,7 @@ from dendropy.utility import error as dperror
 
 from mc import ref, build, hist, bipcheck
 from mc import universe as U
-from mc.budget import time_limit, WallTimeout, budgeted
+from mc.budget import run_limited, budgeted
 
 ID = "C03"
 LEVEL = "model_checking"
@@ -389,10 +389,12 @@ def step(h, op, ctx, b):
     name = op[0]
     live = rebuild(h)
     before_taxa = live.leaf_taxa()
-    try:
-        with time_limit(15.0):
-            exc, removed, added, before_enc, ep = advance(live, op)
-    except WallTimeout:
+    st, val = run_limited(lambda: advance(live, op), 15.0)
+    if st == "exc":
+        raise val
+    if st == "ok":
+        exc, removed, added, before_enc, ep = val
+    else:
         live2 = rebuild(h)
         st, v, n = budgeted(lambda: advance(live2, op), 2000000)
         if st == "hang":
